@@ -778,7 +778,28 @@ pub fn recognise(text: &str) -> Verdict {
         Ok(i) => Verdict::Valid(i),
         Err(_) => match P::new(text, false).interface() {
             Ok(_) => Verdict::Unsure,
-            Err(e) => Verdict::Invalid(e),
+            Err(e) => {
+                // A carriage return that is not part of a CRLF pair: whether it ends a comment line
+                // (zlink's reading, and that of grammars that list CR among the line ends) or is part
+                // of the comment's text is not judged. If the text is acceptable under the reading
+                // "a lone CR is a line break", rejection is not demanded.
+                let b = text.as_bytes();
+                let lone_cr = (0..b.len()).any(|i| b[i] == b'\r' && b.get(i + 1) != Some(&b'\n'));
+                if lone_cr && text.contains('#') {
+                    let mut alt = String::with_capacity(text.len());
+                    for (i, c) in text.char_indices() {
+                        if c == '\r' && b.get(i + 1) != Some(&b'\n') {
+                            alt.push('\n');
+                        } else {
+                            alt.push(c);
+                        }
+                    }
+                    if P::new(&alt, false).interface().is_ok() {
+                        return Verdict::Unsure;
+                    }
+                }
+                Verdict::Invalid(e)
+            }
         },
     }
 }
